@@ -212,3 +212,27 @@ def field_extremes(data, fields):
             out.append(('field-%s' % name, data[:offset] + value + data[offset + width:]))
         out.append(('field-ones-cut', data[:offset] + b'\xff' * width))
     return out
+
+
+UTF8_SNIPPETS = ('\u00e9'.encode('utf-8'), '\u65e5'.encode('utf-8'), '\U0001f511'.encode('utf-8'))
+
+
+def utf8_substitutions(data, limit=24):
+    """Yield (name, variant): inside runs of printable ASCII (text fields: names, identifiers, comments) two, three or
+    four octets are replaced by one well-formed multi-octet UTF-8 character - at the start, in the middle and at the
+    end of the run.  The length of the input and of every enclosing length field stays what it was, so the variant is
+    framed exactly like the original; only the text stopped being ASCII."""
+    data = bytes(data)
+    produced = 0
+    runs = [run for run in _runs(data, lambda byte: 0x20 <= byte < 0x7f) if run[1] - run[0] >= 2]
+    # longest runs first: free text rather than short tags
+    for start, stop in sorted(runs, key=lambda run: (run[0] - run[1], run[0]))[:8]:
+        for snippet in UTF8_SNIPPETS:
+            width = len(snippet)
+            if stop - start < width:
+                continue
+            for position in sorted({start, start + (stop - start - width) // 2, stop - width}):
+                if produced >= limit:
+                    return
+                produced += 1
+                yield 'utf8-in-text', data[:position] + snippet + data[position + width:]
